@@ -757,6 +757,16 @@ func startSimServerMode(e *Env, s *Sched, baseDir string, free bool) *simServer 
 			mux.ServeHTTP(w, r)
 			return
 		}
+		if fault.damage != nil && fault.damage.Kind == "other-question" {
+			// a well-formed answer to another question: the request is served as
+			// if every archive had been asked for
+			q := r.URL.Query()
+			if q.Get("retention") != "" {
+				q.Set("retention", "-1")
+			}
+			r.URL.RawQuery = q.Encode()
+			r.Form = nil
+		}
 		rec := &recorder{hdr: http.Header{}, code: 200}
 		mux.ServeHTTP(rec, r)
 		applyWireFault(w, rec, fault)
